@@ -38,6 +38,8 @@ class _T(object):
     @staticmethod
     def Tuple(*ts): return Ty('Tuple', *ts)
     @staticmethod
+    def New(cls): return Ty('New', cls)          # `self` of an __init__: a fresh record
+    @staticmethod
     def Dict(k, v): return Ty('Dict', k, v)      # symbolic finite map with insertion order not observed
 T = _T
 
